@@ -211,11 +211,13 @@ def closure_result_lits(cb, facts, want=True):
         res = []
         for d in du.full_defs(local):
             if d.kind == "call":
-                res.append((d.block, None, (du.call_term(d.term, d.block, 14), neg)))
+                res.append((d.block, None, ("call", du.call_term(d.term, d.block, 14), neg)))
                 continue
             rv = d.rv
             ops = rv.operands()
-            if rv.kind == "use" and ops and ops[0].is_const() and "bool" in ops[0].j:
+            if rv.kind == "binop" and rv.j.get("op") in ("Eq", "Ne", "Lt", "Le", "Gt", "Ge"):
+                res.append((d.block, None, ("cmp", du.rvalue_term(rv, 14), neg)))
+            elif rv.kind == "use" and ops and ops[0].is_const() and "bool" in ops[0].j:
                 res.append((d.block, bool(ops[0].j["bool"]) != neg, None))
             elif rv.kind in ("use", "unop") and ops and ops[0].place is not None and not ops[0].place.proj and depth < 6 and \
                     (rv.kind == "use" or rv.j.get("op") == "Not"):
@@ -231,8 +233,8 @@ def closure_result_lits(cb, facts, want=True):
         if cval is None:
             if callinfo is None:
                 return []
-            ct, neg = callinfo
-            ls.append(Lit("call", ct, truth=(want != neg), block=blk))
+            kind_, ct, neg = callinfo
+            ls.append(Lit(kind_, ct, truth=(want != neg), block=blk))
         per_site.append(ls)
     if not per_site:
         return []
